@@ -121,6 +121,24 @@ fn fixed<const N: usize>(op: &str, a: &[&str]) -> Option<String> {
                 agree(&[optu(as_ct), optu(back.0), as_opt.map(|v| uhex(&v)).unwrap_or("none".into())])
             )
         }
+        // ---- every operator form of `Checked<Uint<N>>` + / - with EITHER operand possibly `None` (sticky none, seed C04-m6):
+        // operands are CtOptions `(x, sx)`, `(y, sy)`; prints  add(all forms agree)  sub(all forms agree)
+        ("c04.u.checked_forms", [x, sx, y, sy]) => {
+            let (x, y) = (arg!(uint::<N>(x)), arg!(uint::<N>(y)));
+            let (sx, sy) = (arg!(tochoice(sx)), arg!(tochoice(sy)));
+            let a = Checked(CtOption::new(x, sx));
+            let b = Checked(CtOption::new(y, sy));
+            let (mut p1, mut p2, mut m1, mut m2) = (a, a, a, a);
+            p1 += b;
+            p2 += &b;
+            m1 -= b;
+            m2 -= &b;
+            format!(
+                "{} {}",
+                agree(&[optu((a + b).0), optu((a + &b).0), optu((&a + b).0), optu((&a + &b).0), optu(p1.0), optu(p2.0)]),
+                agree(&[optu((a - b).0), optu((a - &b).0), optu((&a - b).0), optu((&a - &b).0), optu(m1.0), optu(m2.0)])
+            )
+        }
         // ---- coverage round: `Wrapping<Uint<N>>` trait forms (src/wrapping.rs 187-231); prints
         // conditional_select  ct_eq  zero  is_zero(x)  one  is_one(x)
         ("c04.u.wrapping_ct", [x, y, c]) => {
